@@ -111,17 +111,12 @@ def idiom_guarded(prog, fn, call):
         return False
     key = render(obj)
     fi = prog.index(fn)
-    for cond, pol in fi.guards(call):
-        # condition may be a disjunction: (a.is_manifold() || b.is_manifold()) false => each false
-        for x in walk(cond):
-            if x.get("k") == "CXXMemberCallExpr" and x.get("callee", "").endswith("::" + meth) and render(call_obj(x)) == key:
-                neg = e2._negations_above(cond, x)
-                val = (pol != neg)
-                # under a disjunction being false every disjunct is false; under a conjunction being true every conjunct is true
-                ops = {y.get("op") for y in walk(cond) if y.get("k") == "BinaryOperator" and y.get("op") in ("&&", "||")}
-                if (not pol and ops <= {"||"}) or (pol and ops <= {"&&"}):
-                    if val == needed_pol:
-                        return True
+    # atomic facts that hold at the call (guards with locals expanded, negations pushed inwards, conjunctions that hold and
+    # disjunctions that do not hold split): is `obj.<meth>()` known to have the needed truth value?
+    from ..model import facts_at
+    for atom, truth in facts_at(fn, fi, call):
+        if atom.get("k") == "CXXMemberCallExpr" and atom.get("callee", "").endswith("::" + meth) and render(call_obj(atom)) == key and truth == needed_pol:
+            return True
     return False
 
 
